@@ -118,6 +118,22 @@ func (db *RockDB) hSetField(ts int64, checkNX bool, hkey []byte, field []byte, v
 	return created, nil
 }
 
+// hLenForWrite is HLen evaluated at the timestamp of the log entry being applied. HLen uses
+// the wall clock, which is for reads only: a write must not depend on the replica's clock.
+func (db *RockDB) hLenForWrite(ts int64, hkey []byte) (int64, error) {
+	if err := checkKeySize(hkey); err != nil {
+		return 0, err
+	}
+	oldh, expired, err := db.hHeaderMeta(ts, hkey, false)
+	if err != nil {
+		return 0, err
+	}
+	if expired {
+		return 0, nil
+	}
+	return Int64(oldh.UserData, err)
+}
+
 func (db *RockDB) HLen(hkey []byte) (int64, error) {
 	if err := checkKeySize(hkey); err != nil {
 		return 0, err
@@ -531,7 +547,7 @@ func (db *RockDB) HClear(ts int64, hkey []byte) (int64, error) {
 		defer tableIndexes.Unlock()
 	}
 
-	hlen, err := db.HLen(hkey)
+	hlen, err := db.hLenForWrite(ts, hkey)
 	if err != nil {
 		return 0, err
 	}
